@@ -327,6 +327,11 @@ CHECKS = {
     technique='runtime monitoring with fault injection: the verif hook raises the interrupt flag at the n-th dispatched instruction; a three-goal sequence plus a probe battery is observed together with the hook counters (raised-at, delivered-at, number of deliveries)',
     text='For 12 workloads (naive reverse, findall, assert/retract loop, setup_call_cleanup with a pending cleanup, catch/throw loop, dif/freeze wake-up chains in the attributed-variable dispatch loop, call_with_inference_limit, bagof/setof, string building, deep recursion, an exception in flight, read+call) the instruction count N is measured and the interrupt is raised at n in 1..300 (step 7), 400 random points in [1, N], the last 300 instructions (step 11) and three points beyond N; the workload and two probe goals then run under catch/3: at most one goal may observe error($interrupt_thrown, _), every other goal must give its reference answer, the hook must count at most one delivery, matching the observed balls, within 512 instructions of raising, a pending cleanup must have run exactly once, the process must not panic, and six battery goals must give their reference answers afterwards.',
     note='Known findings: K54 (an interrupt taken by the machine at certain points is lost: no goal sees the ball) and K55 (an interrupt at certain points makes the dispatch loop panic with an out-of-range program counter). One machine per worker process (the flag is process-global).'),
+ 'C26': dict(
+    level='exploration',
+    technique='runtime monitoring: reference model (Python unification decides success, fired goals and bindings) plus metamorphic comparison of the residual constraints over many merge orders of the same unifications and constraints; fired goals are logged by assertz so that double runs are visible',
+    text='Cases of 1-4 unifications over X Y Z W and small terms and 1-4 constraints (dif/2 between variables, terms and structures sharing variables; freeze/2; when/2 with nonvar, ground, conjunctive and disjunctive conditions; every suspended goal logs its id) are run in up to 8 merge orders (constraints first, last, random interleavings); for every order success/failure, the final bindings and the multiset of logged ids must equal the model (dif fails exactly when its arguments become identical, a suspended goal runs exactly once iff its condition holds at the end), and the residual constraints, identified by kind and carried ids, must be the same for all orders.',
+    note='Known findings: K56 (with dif/2 present, freeze/when goals run with their variable unbound or several times), K57 (when/2 over several variables runs its goal twice). library(when) has no ?=/2 condition; unifications that would build cyclic terms are re-drawn (C24).'),
 }
 
 NOT_APPLICABLE_REASON_UNBUILT = ('check designed in DESIGN.md but not built/validated yet in this session; '
